@@ -171,6 +171,14 @@ Theorem C08_refuted_urlgen_drms : fx_urlgen_drms current = false ->
 Proof. exact refuted_urlgen_drms. Qed.
 Print Assumptions C08_refuted_urlgen_drms.
 
+(** Found while composing the totality proof of the MPD path (2026-10-01): a stop time before the start time. *)
+Theorem C08_refuted_stop_before_start : fx_stop_order current = false ->
+  exists r, handler_model current envW r = HPanic "app.lastPeriodStartTime: index out of range".
+Proof. exact refuted_stop_before_start. Qed.
+Theorem C08_refuted_stop_before_start_cap : fx_stop_order current = false ->
+  exists r, handler_model current envW r = HPanic "app.splitPeriod: makeslice: cap out of range".
+Proof. exact refuted_stop_before_start_cap. Qed.
+
 (** With every repair recorded, each of the 26 witness requests gets a deliberate status. *)
 Theorem C08_witnesses_repaired :
   map (fun r => status_of (handler_model all_fixed envW r)) all_witnesses =
